@@ -433,6 +433,8 @@ enum Dest {
     Fresh,
     Sentinel,
     Stdout,
+    /// a destination that accepts the open but fails every write (`/dev/full`)
+    Full,
 }
 
 const SENTINEL: &[u8] = b"SENTINEL previous content\n";
@@ -446,10 +448,14 @@ fn judge_binary(text: &[u8], shell: &str, dest: Dest, scratch: &Scratch, version
     if dest == Dest::Sentinel {
         std::fs::write(&outpath, SENTINEL).unwrap();
     }
-    let dest_arg = if dest == Dest::Stdout { "-".to_string() } else { outpath.to_string_lossy().to_string() };
+    let dest_arg = match dest {
+        Dest::Stdout => "-".to_string(),
+        Dest::Full => "/dev/full".to_string(),
+        _ => outpath.to_string_lossy().to_string(),
+    };
     let inv = Invocation::new(vec![format!("--{shell}"), dest_arg, inpath.to_string_lossy().to_string()]);
     let r = binrun::run(&inv, scratch);
-    let dest_content = if dest == Dest::Stdout { None } else { std::fs::read(&outpath).ok() };
+    let dest_content = if dest == Dest::Stdout || dest == Dest::Full { None } else { std::fs::read(&outpath).ok() };
     let _ = std::fs::remove_file(&outpath);
     let text_s = String::from_utf8_lossy(text).to_string();
     let detail = |why: &str| {
@@ -466,7 +472,7 @@ fn judge_binary(text: &[u8], shell: &str, dest: Dest, scratch: &Scratch, version
     };
     let stderr = String::from_utf8_lossy(&r.stderr).to_string();
     if r.timed_out {
-        return Err(("hang".into(), format!("complgen --{shell} did not terminate within 10 s"), detail("timeout")));
+        return Err(("hang".into(), format!("complgen --{shell} did not terminate within 60 s"), detail("timeout")));
     }
     let code = match r.status {
         Some(c) => c,
@@ -477,6 +483,17 @@ fn judge_binary(text: &[u8], shell: &str, dest: Dest, scratch: &Scratch, version
     }
     if code != 0 && code != 1 {
         return Err((format!("exit-status-{code}"), format!("complgen --{shell} exited with status {code}"), detail("status")));
+    }
+    if dest == Dest::Full {
+        // nothing can have been written: success is impossible, a diagnostic is due (for a
+        // grammar with a mistake the ordinary diagnostic comes first and the device is never opened)
+        if code == 0 {
+            return Err(("success-without-script".into(), format!("complgen --{shell} exited 0 although every write to the destination failed (device full): no script was written"), detail("/dev/full")));
+        }
+        if r.stderr.is_empty() {
+            return Err(("failure-without-diagnostic".into(), format!("complgen --{shell} exited 1 with empty stderr"), detail("stderr")));
+        }
+        return Ok("full".into());
     }
     if code == 0 {
         let script: Vec<u8> = match dest {
@@ -596,7 +613,7 @@ pub fn run(tier: Tier) -> Report {
 
     // ---- level L in worker processes
     let t_l = Instant::now();
-    let outcomes = run_workers(&inputs, &scratch, crate::par::nthreads(), Duration::from_secs(10));
+    let outcomes = run_workers(&inputs, &scratch, crate::par::nthreads(), Duration::from_secs(60));
     let wall_l = t_l.elapsed().as_secs_f64();
     let mut code_count: BTreeMap<String, u64> = BTreeMap::new();
     let mut class_rep: BTreeMap<String, usize> = BTreeMap::new();
@@ -636,7 +653,7 @@ pub fn run(tier: Tier) -> Report {
     for (i, o) in origin.iter().enumerate() {
         if o.starts_with("seed ") && !o.contains(':') {
             for (_, sn) in SHELLS {
-                for d in [Dest::Fresh, Dest::Sentinel, Dest::Stdout] {
+                for d in [Dest::Fresh, Dest::Sentinel, Dest::Stdout, Dest::Full] {
                     bin_jobs.push((i, sn, d));
                 }
             }
@@ -670,13 +687,16 @@ pub fn run(tier: Tier) -> Report {
         stress.push((format!("stress: {n} nested brackets"), format!("cmd {}a{};", "[".repeat(n), "]".repeat(n))));
         stress.push((format!("stress: {n} unclosed parentheses"), format!("cmd {}a;", "(".repeat(n))));
     }
-    for n in [300usize, 3000, 20000] {
+    for n in [300usize, 1500, 20000] {
         let mut t = String::from("cmd <A0>;\n");
         for i in 0..n {
             t.push_str(&format!("<A{i}> = x <A{}>;\n", i + 1));
         }
         t.push_str(&format!("<A{n}> = y;\n"));
         stress.push((format!("stress: definition chain of length {n}"), t));
+    }
+    for n in [2000usize, 20000] {
+        stress.push((format!("stress: sequence of {n} words"), format!("cmd {};", (0..n).map(|i| format!("w{i}")).collect::<Vec<_>>().join(" "))));
     }
     stress.push(("stress: 3000 alternatives".into(), format!("cmd {};", (0..3000).map(|i| format!("l{i}")).collect::<Vec<_>>().join(" | "))));
     stress.push(("stress: 400 optional items".into(), format!("cmd {};", (0..400).map(|i| format!("[l{i}]")).collect::<Vec<_>>().join(" "))));
@@ -749,7 +769,7 @@ pub fn run(tier: Tier) -> Report {
     rep.cov("deviation_bound_completed", J::s(format!("1 for every seed (token-level ops on the first part only for seeds above the size limit in the quick tier), 2 for seeds of <= {} tokens", tier.pick(5, 8))));
     rep.cov(
         "rule",
-        J::s("fault enumeration: seeds = corpus + examples/*.usage + one seed per Error variant / warning kind / construct; ALL single deviations of every seed: delete/duplicate each token, swap adjacent tokens, truncate after every byte, insert each of 22 fragments before every token, rename every nonterminal occurrence to every other name, drop each statement, move/break each description over lines, each blank -> newline; all pairs of deviations for seeds <= 8 tokens; all raw strings of length <= 2 over a 45-character alphabet. Level L: library pipeline + 4 emitters + both DOT writers in disposable worker processes (stall limit 10 s; a dead or stalled worker pinpoints its input). Level B: the real binary on every seed x 4 shells x {fresh file, existing file, stdout}, on one representative of every distinct library outcome class (error variant x span shape), on all single deviations of the smallest seeds, and on invalid UTF-8; oracle: terminates, status in {0,1}, 0 => complete script at the destination and equal to the library's bytes, 1 => diagnostic on stderr, nothing on stdout, destination untouched. distinct = distinct input texts."),
+        J::s("fault enumeration: seeds = corpus + examples/*.usage + one seed per Error variant / warning kind / construct; ALL single deviations of every seed: delete/duplicate each token, swap adjacent tokens, truncate after every byte, insert each of 22 fragments before every token, rename every nonterminal occurrence to every other name, drop each statement, move/break each description over lines, each blank -> newline; all pairs of deviations for seeds <= 8 tokens; all raw strings of length <= 2 over a 45-character alphabet. Level L: library pipeline + 4 emitters + both DOT writers in disposable worker processes (stall limit 60 s; a dead or stalled worker pinpoints its input). Level B: the real binary on every seed x 4 shells x {fresh file, existing file, stdout, a device that fails every write (/dev/full)}, on one representative of every distinct library outcome class (error variant x span shape), on all single deviations of the smallest seeds, and on invalid UTF-8; oracle: terminates, status in {0,1}, 0 => complete script at the destination and equal to the library's bytes, 1 => diagnostic on stderr, nothing on stdout, destination untouched. distinct = distinct input texts."),
     );
     rep.cov("exhaustive", J::Bool(true));
     rep.cov("samples", J::Arr(samples.items));
